@@ -1,3 +1,4 @@
+import N0Verif.Model.XPathFuel
 import N0Verif.Proofs.XPathSelect2
 import N0Verif.Proofs.XPathPureFind
 import N0Verif.Proofs.XPathPureInfix
@@ -15,34 +16,6 @@ namespace N0.XPath
 open N0 N0.Py N0.Val
 
 /-! ### height and width -/
-
-mutual
-/-- nesting depth: scalars 0, a container one more than its deepest child -/
-def termHgt : Val → Nat
-  | .list _ xs => termHgtL xs + 1
-  | .dict _ kvs => termHgtK kvs + 1
-  | _ => 0
-def termHgtL : List Val → Nat
-  | [] => 0
-  | x :: xs => max (termHgt x) (termHgtL xs)
-def termHgtK : List (Str × Val) → Nat
-  | [] => 0
-  | (_, v) :: kvs => max (termHgt v) (termHgtK kvs)
-end
-
-mutual
-/-- the largest number of children of any container in the value -/
-def termWd : Val → Nat
-  | .list _ xs => max xs.length (termWdL xs)
-  | .dict _ kvs => max kvs.length (termWdK kvs)
-  | _ => 0
-def termWdL : List Val → Nat
-  | [] => 0
-  | x :: xs => max (termWd x) (termWdL xs)
-def termWdK : List (Str × Val) → Nat
-  | [] => 0
-  | (_, v) :: kvs => max (termWd v) (termWdK kvs)
-end
 
 theorem term_hgtL_mem : ∀ {xs : List Val} {i : Nat} {c : Val}, xs[i]? = some c → termHgt c ≤ termHgtL xs
   | [], i, c, h => by simp at h
